@@ -34,6 +34,7 @@ def tasks(tier, seed=0):
     from vf.contracts import mixins
     out = [task(M, "ob_satcache", f"mixin.SatCacheMixin.{m}/spec+inv", ["C11", "C16"], method=m, tier=tier) for m in mixins.QUERY]
     out += [task(M, "ob_modelcache", f"mixin.ModelCacheMixin.{m}/spec+inv", ["C11"], method=m, tier=tier) for m in mixins.MC_METHODS]
+    out.append(task(M, "ob_modelcache_copy", "mixin.ModelCacheMixin._copy/own-containers", ["C14", "C26", "C11"], tier=tier))
     out.append(task(M, "ob_modelcache_trivial", "mixin.ModelCacheMixin._add[variable==constant]/spec+inv", ["C11"], tier=tier))
     from vf.contracts import layers
     out += layers.all_tasks(tier)
